@@ -252,6 +252,7 @@ class Exec:
         self.foreign_owner = {}
         self.memo = {}
         self.aux = []          # further tree roots kept alive by the case (case["aux"])
+        self.fp = {}           # step number -> failure-path bookkeeping for tags (returned under "_fp": not compared)
         self.taint = {}        # id -> element that was handed to a call while it was a member of a live tree (aliasing)
 
     # -- identity labels
@@ -345,10 +346,11 @@ class Exec:
         return ids
 
     def holders(self, el):
-        """containers (over all kept trees) whose `children` list `el`, with multiplicity"""
+        """containers — over all kept trees and over the detached subtrees waiting in the pool, which a later call may
+        graft back — whose `children` list `el`, with multiplicity"""
         out = []
         seen = set()
-        for r in self.trees():
+        for r in self.trees() + list(self.pool):
             for c, _ in self.reach(r):
                 if id(c) in seen:
                     continue
@@ -371,7 +373,8 @@ class Exec:
                 if hs:
                     # through a slot: the slot must be one the List holds
                     par = el.parent
-                    if isinstance(par, Slot) and is_seq(hs[0]) and not any(s is par for s in list.__iter__(hs[0])):
+                    if isinstance(par, Slot) and (getattr(par, "element", None) is not el or not (
+                            is_seq(hs[0]) and any(s is par for s in list.__iter__(hs[0])))):
                         continue
                 del self.taint[k]
 
@@ -794,14 +797,22 @@ class Exec:
                                   or info["snap_after"] != info["snap_before"]):
             for v in info["live_args"]:
                 self.taint[id(v)] = v
-        self.heal()
         # detached elements join the pool
         after_ids = {id(e) for e, _ in self.reach()}
         gone = [(e, c) for e, c in before if id(e) not in after_ids]
         gone_ids = {id(e) for e, _ in gone}
         for e, c in gone:
-            if c is not None and id(c) not in gone_ids:
-                self.pool.append(e)
+            if c is not None and id(c) not in gone_ids and not any(q is e for q in self.pool):
+                self.pool.append(e)       # (once: an aliased element may have been listed twice)
+        info["tainted"] = set(self.taint)      # aliased at the time of the call (before `heal`)
+        self.heal()
+        live = info["live_args"]
+        kids = self.children(target)
+        self.fp[info["i"]] = {"live": len(live), "tree": info.get("tree", 0), "route": info["atomic"],
+                       "raised": info["raised"] is not None,
+                       "moved": sum(1 for a in live if any(c is a for c in kids)) if info["raised"] is None else 0,
+                       "aliased": sum(1 for a in live if len(self.holders(a)) > 1) if live else 0,
+                       "taint": len(self.taint)}
         self.observe()
         if info["raised"] is not None:
             info["out"] = {"exc": exc_name(info["raised"])}
@@ -813,7 +824,10 @@ class Exec:
         self.init()
         for i, o in enumerate(self.case["ops"], 1):
             self.step(i, o)
-        return {"steps": self.steps}
+        out = {"steps": self.steps}
+        if self.fp:
+            out["_fp"] = [self.fp.get(i) for i in range(len(self.steps))]
+        return out
 
 
 # ------------------------------------------------------------------ rejected calls (failure paths)
@@ -1361,7 +1375,7 @@ def has_failure_paths(case):
     return False
 
 
-def inject_failure_paths(rng, case, schema, any_class=False, p_op=0.5):
+def inject_failure_paths(rng, case, schema, any_class=False, p_op=0.5, t_max=7):
     """Rewrite a generated history into one that exercises failure / recovery paths: a second tree of the same class
     kept alive next to the main one, live members handed to placing calls (item / slice assignment, insert, append,
     extend, +=, update / |= / item assignment on mappings), REJECTED calls (out-of-range and non-integer indexes for
@@ -1439,7 +1453,7 @@ def inject_failure_paths(rng, case, schema, any_class=False, p_op=0.5):
                 mp["k"] = rng.choice(UNDECLARED)
         out.append(o)
     # recovery: the history goes on with calls that succeed, and everything is read once more
-    tail = {"t": rng.randint(0, 7), "s": {"op": "append", "a": {"v": rng.choice(INT_POOL)}}, "m": {"op": "observe"}}
+    tail = {"t": rng.randint(0, t_max), "s": {"op": "append", "a": {"v": rng.choice(INT_POOL)}}, "m": {"op": "observe"}}
     if case.get("aux") and rng.random() < 0.5:
         tail["tt"] = 1
     out.append(tail)
